@@ -223,8 +223,10 @@ class StepGen:
             names = list(node.attrs) if node is not None and node.attrs else ["level", "zz"]
             a = r.choice(names) if r.random() < 0.9 else "undeclared"
             from .gen import ATTR_POOL, GENERIC_VALUES
-            return AttrStep(f, a, r.choice(ATTR_POOL.get(a, GENERIC_VALUES)))
+            import copy
+            return AttrStep(f, a, copy.deepcopy(r.choice(ATTR_POOL.get(a, GENERIC_VALUES))))
         top_attrs = list(doc.attrs) or ["meta"]
         from .gen import ATTR_POOL, GENERIC_VALUES
         a = r.choice(top_attrs)
-        return DocAttrStep(a, r.choice(ATTR_POOL.get(a, GENERIC_VALUES)))
+        import copy
+        return DocAttrStep(a, copy.deepcopy(r.choice(ATTR_POOL.get(a, GENERIC_VALUES))))
